@@ -52,6 +52,12 @@ class Factorial(Part):
                 continue
             seen.add(lv)
             cases.append({"kind": "fullfact", "d": d, "center": None, "levels": list(lv), "cseed": rng.randrange(1 << 30)})
+        # fine sweeps: one factor with many levels ("any level lists"); the sizes straddle the 8- and 16-bit code boundaries
+        fine = [[127], [128], [129], [150, 2], [2, 150], [200, 3], [255], [256, 2], [2, 257], [300], [2, 130, 2]]
+        if not ctx.quick:
+            fine += [[1000], [3, 400], [32767 // 64, 2], [600, 2], [2, 2, 260], [33000]]
+        for lv in fine:
+            cases.append({"kind": "fullfact", "d": len(lv), "center": None, "levels": list(lv), "cseed": rng.randrange(1 << 30)})
         # generalized subset designs: level lists x reductions x complementary counts
         grid = [[2, 2], [3, 3], [3, 4], [4, 4], [2, 3, 4], [3, 3, 3], [5, 3], [2, 2, 2], [4, 6], [3, 4, 6], [2, 3, 5], [5, 5], [6, 6], [2, 2, 3, 3]]
         for levels in grid:
